@@ -422,6 +422,7 @@ struct HofPass<'a> {
     counter: usize,
     ret_is_option: bool,
     closure_depth: usize,
+    optmap: bool,
 }
 impl<'a> VisitMut for HofPass<'a> {
     fn visit_expr_closure_mut(&mut self, c: &mut syn::ExprClosure) {
@@ -499,6 +500,32 @@ impl<'a> VisitMut for HofPass<'a> {
                         };
                         *e = new;
                         self.log.push("R-HOF map_err(closure) beta-reduced".into());
+                    }
+                }
+            }
+        }
+        // (option `optmap`: every `.map(..)` in this function is Option::map)
+        // E.map(|p| B) ==> match E { Some(p) => Some(B), None => None };  E.map(Ctor) ==> match E { Some(v) => Some(Ctor(v)), None => None }
+        if self.optmap {
+            if let Expr::MethodCall(mc) = e {
+                if mc.method == "map" && mc.args.len() == 1 {
+                    let recv = &mc.receiver;
+                    let new: Option<Expr> = match &mc.args[0] {
+                        Expr::Closure(cl) if cl.inputs.len() == 1 => {
+                            let pat = &cl.inputs[0];
+                            let body = &cl.body;
+                            Some(parse_quote! { match (#recv) { Some(#pat) => Some(#body), None => None } })
+                        }
+                        Expr::Path(p) => {
+                            self.counter += 1;
+                            let v = quote::format_ident!("__fjx_v{}", self.counter);
+                            Some(parse_quote! { match (#recv) { Some(#v) => Some(#p(#v)), None => None } })
+                        }
+                        _ => None,
+                    };
+                    if let Some(n) = new {
+                        *e = n;
+                        self.log.push("R-HOF Option::map beta-reduced".into());
                     }
                 }
             }
@@ -1228,6 +1255,8 @@ struct ExtractSpec {
     contract_file: Option<String>,
     until: Option<String>,
     desugar_for: Vec<usize>,
+    optmap: bool,
+    assoc: Vec<(String, String)>,
     iter_args: Vec<(String, usize)>,
 }
 
@@ -1455,7 +1484,7 @@ impl Unit {
             }
             _ => false,
         };
-        HofPass { log: &mut log, counter: 0, ret_is_option, closure_depth: 0 }.visit_block_mut(&mut block);
+        HofPass { log: &mut log, counter: 0, ret_is_option, closure_depth: 0, optmap: spec.optmap }.visit_block_mut(&mut block);
         // R-FORTMP
         ForTmp { log: &mut log, n: 0 }.visit_block_mut(&mut block);
         // R-SCOPE (after R-TRY so that every exit is an explicit `return`)
@@ -1563,7 +1592,12 @@ impl Unit {
             IterArg { table: &spec.iter_args, log: &mut log }.visit_block_mut(&mut block);
         }
         // R-TRAIT: Self::Assoc -> definition when a trait method is emitted as an inherent method
-        if spec.inherent && !found.assoc_types.is_empty() {
+        let mut assoc_types = found.assoc_types.clone();
+        for (a, t) in &spec.assoc {
+            let ty: syn::Type = syn::parse_str(t).unwrap_or_else(|_| die("assoc=: cannot parse type"));
+            assoc_types.push((a.clone(), ty));
+        }
+        if spec.inherent && !assoc_types.is_empty() {
             struct Assoc<'a> {
                 tys: &'a [(String, syn::Type)],
                 log: &'a mut Vec<String>,
@@ -1583,7 +1617,7 @@ impl Unit {
                     visit_mut::visit_type_mut(self, t);
                 }
             }
-            let mut a = Assoc { tys: &found.assoc_types, log: &mut log };
+            let mut a = Assoc { tys: &assoc_types, log: &mut log };
             a.visit_signature_mut(&mut sig);
             a.visit_block_mut(&mut block);
         }
@@ -2267,6 +2301,11 @@ impl Unit {
                                 spec.iter_args.push((m.to_string(), k.parse().unwrap_or_else(|_| die("bad iter_arg index"))))
                             } else if let Some(n) = o.strip_prefix("desugar_for=") {
                                 spec.desugar_for = n.split(',').map(|x| x.parse().unwrap_or_else(|_| die("bad desugar_for"))).collect();
+                            } else if let Some(n) = o.strip_prefix("assoc=") {
+                                let (a, t) = n.split_once(':').unwrap_or_else(|| die("bad assoc="));
+                                spec.assoc.push((a.to_string(), t.replace('~', " ")));
+                            } else if o == "optmap" {
+                                spec.optmap = true
                             } else if let Some(n) = o.strip_prefix("until=") {
                                 spec.until = Some(n.replace('~', " "))
                             } else if let Some(n) = o.strip_prefix("ret=") {
